@@ -322,9 +322,11 @@ impl<'a> ::serde::de::Deserialize<'a> for CredentialPrimaryPublicKey {
             s: BigNumber,
             r: HashMap<String /* attr_name */, BigNumber>,
             rctxt: BigNumber,
+            z: BigNumber,
+            // legacy field: last, so that a positional format (compact MessagePack) carrying
+            // the five current fields only still decodes (a missing trailing slot defaults)
             #[serde(default)]
             rms: BigNumber,
-            z: BigNumber,
         }
 
         let mut helper = CredentialPrimaryPublicKeyV1::deserialize(deserializer)?;
@@ -1326,9 +1328,10 @@ impl<'a> ::serde::de::Deserialize<'a> for PrimaryEqualProof {
             e: BigNumber,
             v: BigNumber,
             m: HashMap<String /* attr_name of all except revealed */, BigNumber>,
+            m2: BigNumber,
+            // legacy field: last (see CredentialPrimaryPublicKeyV1)
             #[serde(default)]
             m1: BigNumber,
-            m2: BigNumber,
         }
 
         let mut helper = PrimaryEqualProofV1::deserialize(deserializer)?;
